@@ -45,7 +45,7 @@ CONFIG = {
     'must_sig': ['case:A_before_B', 'case:same_var', 'case:B_before_A',
                  'case:terminal_operand', 'restrict:var_absent',
                  'restrict:var_at_root', 'restrict:var_inside',
-                 'site:pyModelChecking.BDD.OBDD:parse_binary_op'],
+                 'site:pyModelChecking.BDD.OBDD:*'],
     'rule': ('cases = (operation, operand functions, ordering); enumerated: '
              'all 65,536 ordered pairs of the 256 Boolean functions of 3 '
              'variables for & | ^ (each pair under one ordering rotated '
